@@ -683,6 +683,7 @@ func c06ReorderedCostDeltas(r *Run, variant int) {
 // must never be reported EXPIRED - whatever entry object it was given carries nothing over from its previous life.
 func c06PooledEntries(r *Run, idx int) {
 	rng := r.Rng(int64(66000 + idx))
+	defer r.Case(fmt.Sprintf("pooled-entries round %d pool=true", idx))()
 	nl := &noteLog[int, int64]{}
 	a, err := newAnyCache([]string{"plain", "loading"}[idx%2], anyOpts{MaxSize: 5000, Pool: true, Listener: nl.listener()})
 	if err != nil {
